@@ -5,7 +5,6 @@ import datetime as dt
 import functools
 import locale
 import logging
-import math
 import re
 import time
 
@@ -838,8 +837,9 @@ class TrigTime:
                     if (now < start or startup) and (next_time is None or start < next_time):
                         next_time_adj = next_time = start
                     if now >= start and not startup:
-                        secs = period * (1.0 + math.floor((now - start).total_seconds() / period))
-                        this_t = start + dt.timedelta(seconds=secs)
+                        # exact (microsecond) arithmetic: float rounding must not skip or repeat an instant
+                        period_td = dt.timedelta(seconds=period)
+                        this_t = start + ((now - start) // period_td + 1) * period_td
                         if now < this_t and (next_time is None or this_t < next_time):
                             next_time_adj = next_time = this_t
                     continue
@@ -858,8 +858,8 @@ class TrigTime:
                         if next_time is None or start < next_time:
                             next_time_adj = next_time = start
                         break
-                    secs = period * (1.0 + math.floor((now - start).total_seconds() / period))
-                    this_t = start + dt.timedelta(seconds=secs)
+                    period_td = dt.timedelta(seconds=period)
+                    this_t = start + ((now - start) // period_td + 1) * period_td
                     if start <= this_t <= end:
                         if next_time is None or this_t < next_time:
                             next_time_adj = next_time = this_t
